@@ -79,7 +79,15 @@ func VHDeterminism() {
 		rb, eb := b.call(name, args)
 		vAssert((ea != nil) == (eb != nil), "same errors for the same seed and calls")
 		if ea == nil && eb == nil {
-			vAssert(vKind(ra) == 0 && vKind(rb) == 0 && vSameFloat(*ra.Number, *rb.Number), "same random results for the same seed and calls")
+			vAssert(vKind(ra) == 0 && vKind(rb) == 0, "random results are numbers")
+			if name == "random" {
+				vAssert(vSameFloat(*ra.Number, *rb.Number), "same random results for the same seed and calls")
+			} else {
+				// dice / random_range return integers: compared as the integers they were converted from
+				ia, oka := vExactInt(*ra.Number)
+				ib, okb := vExactInt(*rb.Number)
+				vAssert(oka && okb && ia == ib, "same random results for the same seed and calls (integers)")
+			}
 			vReach("compared")
 		}
 	}
